@@ -16,6 +16,7 @@ int main(int argc, char** argv)
         if (a.rfind("par=", 0) == 0) g_simopts.worker_threads = std::stoi(a.substr(4));
         if (a.rfind("fetch=", 0) == 0) g_simopts.prevout_threads = std::stoi(a.substr(6));
         if (a.rfind("cache=", 0) == 0) g_simopts.validation_cache = a.substr(6) != "0";
+        if (a.rfind("arg=", 0) == 0) g_simopts.args.push_back(a.substr(4));      // e.g. arg=-testactivationheight=bip34@1000
     }
     if (std::string(argv[1]) == "replay") {
         const bool use_fork = argc > 4 && std::string(argv[4]) == "fork";
